@@ -2,15 +2,15 @@
 import numpy as np
 import openmdao.api as om
 
-from progfam.library import LIBRARY, IMPLICIT, IDX_FAMILY
+from progfam.library import LIBRARY, IMPLICIT, IDX_FAMILY, QUICK_FORMS
 
 LEVEL = 'model_checking'
 EXPLANATION = ('Whole-Problem symbolic runs over the program family: every source output element is a symbolic real; '
                'after run_model (and at the entry of every component evaluation) each input element must equal the '
                'ground-truth dataflow value NumPy-index-chain(source) converted with the library unit factors.  The '
                'ground truth comes from the generator, never from OpenMDAO name resolution.')
-BOUNDS = dict(programs='13 hand-built members of progfam/library.py (quick); thorough adds the index-form family: 11 NumPy index forms x '
-              '{connect, promotes} x {no units, m->cm, degC->degF} = 66 one-consumer programs; structures are enumerated, not quantified',
+BOUNDS = dict(programs='13 hand-built members of progfam/library.py (quick); quick adds 7 index forms (permuted/duplicate spans, row selection in a non-flat 2-D source); thorough adds the whole index-form family: 18 NumPy index forms x '
+              '{connect, promotes} x {no units, m->cm, degC->degF} = 108 one-consumer programs; structures are enumerated, not quantified',
               variable_size='<= 6', index_forms='int arrays with negatives/duplicates, slices incl. negative step, tuple (slice, list), '
               'flat and non-flat, 1-D/2-D sources, promotes src_indices at 1-2 levels', units='m/cm/mm, degC/degF/degK/degR')
 STUBS = []
@@ -22,6 +22,9 @@ def harnesses(tier, seed):
     jobs = [dict(fn='h_prog', params=dict(prog=name)) for name in LIBRARY]
     jobs += [dict(fn='h_prog', params=dict(prog=name)) for name in IMPLICIT]
     jobs.append(dict(fn='h_discrete', params={}))
+    if tier == 'quick':
+        jobs += [dict(fn='h_prog', params=dict(prog=f'idx_form{k}_connect_none')) for k in QUICK_FORMS]
+        jobs += [dict(fn='h_prog', params=dict(prog=f'idx_form{k}_promote_len')) for k in QUICK_FORMS[:3]]
     if tier != 'quick':
         # index-form family: 11 NumPy index forms x {connect, promotes} x {no units, factor, factor+offset}
         jobs += [dict(fn='h_prog', params=dict(prog=name)) for name in IDX_FAMILY]
